@@ -110,6 +110,7 @@ type c15Obs struct {
 	PkgFiles   []string   `json:"pkg_files,omitempty"` // what appeared in the destination directory
 	Ignored    []string   `json:"ignored,omitempty"`   // dir: paths excluded by the real rules (files, incl. below ignored dirs)
 	IgnoreErr  bool       `json:"ignore_err,omitempty"`
+	ValidIgn   []string   `json:"valid_ignored,omitempty"` // .helmignore with a rejected line: files its valid rules exclude
 	Wf         bool       `json:"wf"`
 	MatchRes   string     `json:"match_res,omitempty"` // match: y/n/e per name
 	IgnRes     string     `json:"ign_res,omitempty"`   // match: the pattern as a .helmignore line, i/k per (name, file|dir)
@@ -428,6 +429,7 @@ func c15ExecDir(c *c15Case, tmp string) (obs c15Obs) {
 	}
 	obs.IgnoreErr = orc.addIgnore(root, obs.Tree)
 	obs.Ignored = orc.ignoredFiles
+	obs.ValidIgn = orc.validIgnored
 	orc.addLevel(c15Kept(obs.Tree, obs.Ignored), 0)
 	l, err := loader.LoadDir(root)
 	obs.DirErr = c15LoadErrClass(err)
@@ -858,6 +860,29 @@ func (p *c15) Oracle(ci, oi any) []hx.Violation {
 			for _, f := range obs.DirLoaded.Raw {
 				if ign[f.Name] {
 					add("C15:ignored-file-loaded", fmt.Sprintf("%s is excluded by .helmignore but was loaded", f.Name))
+				}
+			}
+		}
+		// a .helmignore with a line Helm cannot parse: the load and the package fail (unchanged tree);
+		// if they do not, the valid rules of the file must still be honoured -- nothing they exclude
+		// may be in the loaded chart or in the archive
+		if obs.IgnoreErr {
+			vign := map[string]bool{}
+			for _, n := range obs.ValidIgn {
+				vign[n] = true
+			}
+			for _, e := range obs.Packaged {
+				if i := strings.Index(e.Name, "/"); i >= 0 && vign[e.Name[i+1:]] && e.Name[i+1:] != "Chart.yaml" {
+					add("C15:ignored-file-packaged", fmt.Sprintf("%s is excluded by a valid rule of a .helmignore that also has a line Helm rejects; the package succeeded and contains it", e.Name[i+1:]))
+					break
+				}
+			}
+			if obs.DirLoaded != nil {
+				for _, f := range obs.DirLoaded.Raw {
+					if vign[f.Name] {
+						add("C15:ignored-file-loaded", fmt.Sprintf("%s is excluded by a valid rule of a .helmignore that also has a line Helm rejects; the directory loaded and contains it", f.Name))
+						break
+					}
 				}
 			}
 		}
